@@ -12,7 +12,7 @@ RULE = (
 )
 ASSUMPTIONS = ["the order of edge statements among themselves is not part of the statement and is not checked",
                "known finding dot-edge-to-stopped-child is accepted only when the surplus edges are exactly the predicted ones"]
-GATES = ["mon.C12.export", "C12.edges_checked", "C12.maxlevel0", "C12.stop_and_filter", "C12.colliding_names", "C12.hostile_names", "C12.custom", "C12.to_dotfile", "C12.rendertreegraph"]
+GATES = ["mon.C12.export", "C12.edges_checked", "C12.maxlevel0", "C12.stop_and_filter", "C12.colliding_names", "C12.hostile_names", "C12.custom", "C12.to_dotfile", "C12.rendertreegraph", "C12.predicate_change", "C12.value_semantics_nodes"]
 
 
 def plan(tier, seed, jobs):
@@ -61,28 +61,34 @@ def run(ctx):
         n = rng.randint(1, 14)
         par, _ = gen.random_tree(rng, n)
         ch = gen.children_of(par)
-        collide = r % 3 == 0
+        collide = rng.random() < 0.4
         names = G.hostile_names(rng, n, collide)
         if len(set(names)) < n:
             ctx.count("C12.colliding_names")
         if any(c in x for x in names for c in '"\\'):
             ctx.count("C12.hostile_names")
-        nodes = G.build(par, names)
+        valsem = rng.random() < 0.3
+        if valsem:
+            ctx.count("C12.value_semantics_nodes")
+        nodes = G.build(par, names, valsem)
         idmap = {id(o): i for i, o in enumerate(nodes)}
-        case = {"par": list(par), "names": names}
+        case = {"par": list(par), "names": names, "value_semantics": valsem}
         for q in range(6):
             s = rng.choice([0, 0, rng.randrange(n)])
             stop = frozenset(x for x in range(n) if rng.random() < rng.choice([0, 0.15, 0.3]))
             hidden = frozenset(x for x in range(n) if rng.random() < rng.choice([0, 0.2, 0.5]))
             ml = rng.choice([None, None, 0, 1, 2, 3, 5])
-            custom = G.CUSTOMS[(r + q) % len(G.CUSTOMS)]
+            custom = rng.choice(G.CUSTOMS + [None])
             if custom:
                 ctx.count("C12.custom")
-            kind = ("dot", "unique", "rtg")[q % 3]
+            kind = rng.choice(("dot", "unique", "unique", "rtg"))
             if kind == "rtg":
                 ctx.count("C12.rendertreegraph")
             ctx.case((kind, par, tuple(names), s, stop, hidden, ml, repr(custom)), sample=dict(case, exporter=kind, start=s, stop=sorted(stop), hidden=sorted(hidden), maxlevel=ml, custom=custom) if r % 150 == 0 and q == 0 else None)
-            G.check_dot(ctx, "C12", kind, lib, nodes, idmap, names, par, ch, s, stop, hidden, ml, custom, case, known)
+            phase2 = None
+            if q % 2:
+                phase2 = (frozenset(x for x in range(n) if rng.random() < 0.2), frozenset(x for x in range(n) if rng.random() < 0.3))
+            G.check_dot(ctx, "C12", kind, lib, nodes, idmap, names, par, ch, s, stop, hidden, ml, custom, case, known, phase2=phase2)
         # legacy class emits the same lines as DotExporter for the same arguments
         import warnings
         from anytree.exporter import DotExporter
@@ -104,7 +110,9 @@ def replay(ctx, wit):
     c = wit["case"]
     ctx.case(("replay",))
     par, names = c["par"], c["names"]
-    nodes = G.build(par, names)
+    nodes = G.build(par, names, c.get("value_semantics", False))
     idmap = {id(o): i for i, o in enumerate(nodes)}
+    ph = c.get("phase2")
     G.check_dot(ctx, "C12", c.get("exporter", "dot"), lib, nodes, idmap, names, par, gen.children_of(par), c.get("start", 0), frozenset(c.get("stop", [])),
-                frozenset(c.get("hidden", [])), c.get("maxlevel"), c.get("custom"), {"par": par, "names": names}, set(ctx.spec.get("known") or []))
+                frozenset(c.get("hidden", [])), c.get("maxlevel"), c.get("custom"), {"par": par, "names": names}, set(ctx.spec.get("known") or []),
+                phase2=(frozenset(ph[0]), frozenset(ph[1])) if ph else None)
